@@ -894,6 +894,11 @@ func (ex *Exec) frameObligations(f *frame, c *Contract) {
 			allowedRefs[it.comp] = append(allowedRefs[it.comp], *it.ref)
 		}
 	}
+	for _, g := range c.AlsoMods {
+		if gv, ok := ex.V.specs.ghosts[g]; ok {
+			allowedWhole["G:"+gv.Name] = true
+		}
+	}
 	n0 := ex.sc.declare("pre:"+compAlloc, SInt)
 	for _, k := range sortedKeys(f.exit.heap) {
 		if k == compAlloc || k == "G:clock" || strings.HasPrefix(k, "LK:") || strings.HasPrefix(k, "LA:") || allowedWhole[k] {
